@@ -12,7 +12,7 @@ set_option linter.unreachableTactic false
 namespace Rooc
 namespace Lin
 open Arith
-variable {α : Type} [Arith α] {β γ : Type}
+variable {α : Type} [Arith α] [BCfg α] {β γ : Type}
 variable {N : String → Prop} {p : α → Bool}
 
 /-- `flatten` and `simplify` keep the literal predicate (proved for every closed `p` in `WFSimp`). -/
@@ -28,34 +28,35 @@ theorem normalizeExp_ok (hs : SimpOK p) {e f : Exp α} (he : allLits p e = true)
   exact hs.simp _ (hs.flat _ _ _ (hs.simp _ he) hfl)
 
 theorem simplifyFlat_sp (hs : SimpOK p) {e : Exp α} (he : allLits p e = true) (s : St α) :
-    SpAt (Rel N p) s (simplifyFlat e) (fun x => allLits p x = true) := by
+    SpAt (Rel N p) (Inv N p) s (simplifyFlat e) (fun x => allLits p x = true) := by
   unfold simplifyFlat
   split
   · exact SpAt.fail (rel_isPre _ _) trivial
   · rename_i f hf
     exact SpAt.pure (rel_isPre _ _) (normalizeExp_ok hs he hf)
 
-theorem emitConstraint_sp (hN : N "") (hp : Closed p) (hs : SimpOK p) {lhs rhs : Exp α}
+theorem emitConstraint_sp (hN : N "") (hp : Closed p) (hs : SimpOK p) (hB : BTrack p) {lhs rhs : Exp α}
     (hl : allLits p lhs = true) (hr : allLits p rhs = true) {name : String} (hn : N name) (cmp : Cmp) (s : St α) :
-    SpAt (Rel N p) s (emitConstraint lhs cmp rhs name) (fun _ => True) := by
+    SpAt (Rel N p) (Inv N p) s (emitConstraint lhs cmp rhs name) (fun _ => True) := by
   unfold emitConstraint
   split
   · exact SpAt.fail (rel_isPre _ _) trivial
   · rename_i fl hfl
     have hfl' : allLits p fl = true :=
       normalizeExp_ok hs (by simp [allLits, hl, hr]) hfl
-    refine SpAt.bind (rel_isPre _ _) ((linExp_block hN hp).1 _ _ hfl' s) ?_
+    refine SpAt.bind (rel_isPre _ _) ((linExp_block hN hp hB).1 _ _ hfl' s) ?_
     intro v hv s1
-    refine SpAt.modify (Rel.of_domain_eq rfl rfl ?_) trivial
-    intro hok
-    refine ⟨hok.1, ?_⟩
-    intro r hr'
-    rcases List.mem_append.mp hr' with h | h
-    · exact hok.2 _ h
-    · simp only [List.mem_singleton] at h
-      subst h
-      unfold CtxOK at hv
-      exact ⟨hn, hv.1, hp.neg _ hv.2⟩
+    have hok' : StOK N p s1 → StOK N p { s1 with rows := s1.rows ++ [{ name := name, lhs := v.vars, rhs := Arith.neg v.rhs, cmp := cmp }] } := by
+      intro hok
+      refine ⟨hok.1, ?_⟩
+      intro r hr'
+      rcases List.mem_append.mp hr' with h | h
+      · exact hok.2 _ h
+      · simp only [List.mem_singleton] at h
+        subst h
+        unfold CtxOK at hv
+        exact ⟨hn, hv.1, hp.neg _ hv.2⟩
+    exact SpAt.modify (Rel.of_domain_eq rfl rfl hok') (fun hI => ⟨hok' hI.1, hI.2⟩) trivial
 
 /-! ### `binary_affine_value` -/
 
@@ -111,7 +112,7 @@ theorem allSome_affine_ok (hp : Closed p) {d : List (DomVar α)} {es ops : List 
 
 macro_rules
   | `(tactic| sp_call) => `(tactic| first
-    | (apply emitConstraint_sp (by assumption) (by assumption) (by assumption))
+    | (apply emitConstraint_sp (by assumption) (by assumption) (by assumption) (by assumption))
     | (apply simplifyFlat_sp (by assumption)))
 
 macro_rules
@@ -138,30 +139,30 @@ macro_rules
     | (refine allLits_of_mem_pair (by assumption) ?_ ?_ <;> sp_side))
 
 section lower
-variable (hN : N "") (hp : Closed p) (hs : SimpOK p)
-include hN hp hs
+variable (hN : N "") (hp : Closed p) (hs : SimpOK p) (hB : BTrack p)
+include hN hp hs hB
 attribute [local irreducible] CtxOK Ctx.mergeAdd Ctx.mergeSub Ctx.mulBy Ctx.divBy Ctx.addRhs Ctx.addVar
   Ctx.fromRhs Ctx.fromVar Ctx.new ctxToExp sumExps isAux
 
 theorem tryLowerAffine_sp (e : Exp α) (t : Bool) (name : String) :
-    allLits p e = true → N name → ∀ s, SpAt (Rel N p) s (tryLowerAffine e t name) (fun _ => True) := by
+    allLits p e = true → N name → ∀ s, SpAt (Rel N p) (Inv N p) s (tryLowerAffine e t name) (fun _ => True) := by
   fun_induction tryLowerAffine e t name
   all_goals (intros; sp_go)
 
-theorem freshWitness_sp (s : St α) : SpAt (Rel N p) s freshWitness (fun _ => True) := by
+theorem freshWitness_sp (s : St α) : SpAt (Rel N p) (Inv N p) s freshWitness (fun _ => True) := by
   unfold freshWitness
   sp_go
 
 theorem linBinaryOperand_sp {e : Exp α} (he : allLits p e = true) (s : St α) :
-    SpAt (Rel N p) s (linBinaryOperand e) (fun x => allLits p x = true) :=
-  (linExp_block hN hp).2.1 e he s
+    SpAt (Rel N p) (Inv N p) s (linBinaryOperand e) (fun x => allLits p x = true) :=
+  (linExp_block hN hp hB).2.1 e he s
 
 theorem iffWitness_sp {l r : Exp α} (hl : allLits p l = true) (hr : allLits p r = true) (t : Bool) (s : St α) :
-    SpAt (Rel N p) s (iffWitness l r t) (fun x => allLits p x = true) := by
+    SpAt (Rel N p) (Inv N p) s (iffWitness l r t) (fun x => allLits p x = true) := by
   unfold iffWitness
-  have h1 := linBinaryOperand_sp hN hp hs hl
-  have h2 := linBinaryOperand_sp hN hp hs hr
-  have h3 := freshWitness_sp (N := N) (p := p) hN hp hs
+  have h1 := linBinaryOperand_sp hN hp hs hB hl
+  have h2 := linBinaryOperand_sp hN hp hs hB hr
+  have h3 := freshWitness_sp (N := N) (p := p) hN hp hs hB
   sp_go
   rename_i x hx _ _
   split at hx <;> simp only [List.mem_cons, List.mem_nil_iff, or_false] at hx <;>
@@ -169,16 +170,16 @@ theorem iffWitness_sp {l r : Exp α} (hl : allLits p l = true) (hr : allLits p r
 
 theorem dirWitness_block :
     (∀ (e : Exp α) (t : Bool), allLits p e = true →
-      ∀ s, SpAt (Rel N p) s (dirWitness e t) (fun x => allLits p x = true)) ∧
+      ∀ s, SpAt (Rel N p) (Inv N p) s (dirWitness e t) (fun x => allLits p x = true)) ∧
     (∀ (es : List (Exp α)) (t : Bool), allLitsL p es = true →
-      ∀ s, SpAt (Rel N p) s (dirWitnessList es t) (fun xs => allLitsL p xs = true)) := by
-  have h3 := freshWitness_sp (N := N) (p := p) hN hp hs
-  have h4 := @iffWitness_sp α _ N p hN hp hs
+      ∀ s, SpAt (Rel N p) (Inv N p) s (dirWitnessList es t) (fun xs => allLitsL p xs = true)) := by
+  have h3 := freshWitness_sp (N := N) (p := p) hN hp hs hB
+  have h4 := @iffWitness_sp α _ _ N p hN hp hs hB
   apply dirWitness.mutual_induct
     (motive_1 := fun e t => allLits p e = true →
-      ∀ s, SpAt (Rel N p) s (dirWitness e t) (fun x => allLits p x = true))
+      ∀ s, SpAt (Rel N p) (Inv N p) s (dirWitness e t) (fun x => allLits p x = true))
     (motive_2 := fun es t => allLitsL p es = true →
-      ∀ s, SpAt (Rel N p) s (dirWitnessList es t) (fun xs => allLitsL p xs = true))
+      ∀ s, SpAt (Rel N p) (Inv N p) s (dirWitnessList es t) (fun xs => allLitsL p xs = true))
   all_goals (intros; (first | simp only [dirWitness] | simp only [dirWitnessList] | skip); sp_go)
   · refine SpAt.bind (mid := fun x => allLits p x = true) (rel_isPre _ _) ?_ ?_
     · sp_go
@@ -187,23 +188,23 @@ theorem dirWitness_block :
 
 theorem lowerAssertion_block :
     (∀ (e : Exp α) (t : Bool) (name : String), allLits p e = true → N name →
-      ∀ s, SpAt (Rel N p) s (lowerAssertion e t name) (fun _ => True)) ∧
+      ∀ s, SpAt (Rel N p) (Inv N p) s (lowerAssertion e t name) (fun _ => True)) ∧
     (∀ (es : List (Exp α)) (t : Bool) (name : String), allLitsL p es = true → N name →
-      ∀ s, SpAt (Rel N p) s (lowerAssertionList es t name) (fun _ => True)) := by
-  have h1 := @linBinaryOperand_sp α _ N p hN hp hs
-  have h2 := (dirWitness_block hN hp hs).1
-  have h3 := (dirWitness_block hN hp hs).2
-  have h5 := tryLowerAffine_sp hN hp hs
+      ∀ s, SpAt (Rel N p) (Inv N p) s (lowerAssertionList es t name) (fun _ => True)) := by
+  have h1 := @linBinaryOperand_sp α _ _ N p hN hp hs hB
+  have h2 := (dirWitness_block hN hp hs hB).1
+  have h3 := (dirWitness_block hN hp hs hB).2
+  have h5 := tryLowerAffine_sp hN hp hs hB
   apply lowerAssertion.mutual_induct
     (motive_1 := fun e t name => allLits p e = true → N name →
-      ∀ s, SpAt (Rel N p) s (lowerAssertion e t name) (fun _ => True))
+      ∀ s, SpAt (Rel N p) (Inv N p) s (lowerAssertion e t name) (fun _ => True))
     (motive_2 := fun es t name => allLitsL p es = true → N name →
-      ∀ s, SpAt (Rel N p) s (lowerAssertionList es t name) (fun _ => True))
+      ∀ s, SpAt (Rel N p) (Inv N p) s (lowerAssertionList es t name) (fun _ => True))
   all_goals (intros; (first | simp only [lowerAssertion] | simp only [lowerAssertionList] | skip); sp_go)
 
 /-! ### the work-list loop -/
 
-omit hN hp hs in
+omit hN hp hs hB in
 theorem tryNormalize_assertion {d : List (DomVar α)} {lhs rhs e : Exp α} {cmp : Cmp} {t : Bool}
     (h : tryNormalize d lhs cmp rhs = some (.assertion e t)) : e = lhs ∨ e = rhs := by
   unfold tryNormalize at h
@@ -223,9 +224,11 @@ theorem tryNormalize_assertion {d : List (DomVar α)} {lhs rhs e : Exp α} {cmp 
         · cases hpick
     split at h
     · split at h <;> cases h
-    · split at h <;> (injection h with h; first | (injection h with h1 _; rw [← h1]; exact he') | cases h)
+    · split at h <;> first
+        | (injection h with h; first | (injection h with h1 _; rw [← h1]; exact he') | cases h)
+        | (split at h <;> cases h)  -- fix ba14904: the two constant verdicts are guarded by `mayBeUndefined`
 
-omit hN hp hs in
+omit hN hp hs hB in
 theorem bind_ok {x : M α β} {f : β → M α γ} {s s' : St α} {c : γ} (h : (x >>= f) s = .ok (c, s')) :
     ∃ a s1, x s = .ok (a, s1) ∧ f a s1 = .ok (c, s') := by
   rw [bind_run] at h
@@ -233,7 +236,7 @@ theorem bind_ok {x : M α β} {f : β → M α γ} {s s' : St α} {c : γ} (h : 
   | error e => rw [hx] at h; cases h
   | ok q => obtain ⟨a, s1⟩ := q; rw [hx] at h; exact ⟨a, s1, rfl, h⟩
 
-omit hN hp hs in
+omit hN hp hs hB in
 theorem bind_error {x : M α β} {f : β → M α γ} {s : St α} {err : LinErr} (h : (x >>= f) s = .error err) :
     x s = .error err ∨ ∃ a s1, x s = .ok (a, s1) ∧ f a s1 = .error err := by
   rw [bind_run] at h
@@ -245,66 +248,32 @@ theorem bind_error {x : M α β} {f : β → M α γ} {s : St α} {err : LinErr}
     left; rw [h']
   | ok q => obtain ⟨a, s1⟩ := q; rw [hx] at h; exact Or.inr ⟨a, s1, rfl, h⟩
 
-/-- like `SpAt`, for the loop: the program may rely on the invariant `StOK` of its start state. -/
+/-- the loop: a program of type `M α Unit` under the invariant. -/
 def SpI (N : String → Prop) (p : α → Bool) (s : St α) (x : M α Unit) : Prop :=
-  StOK N p s → (∀ s', x s = .ok ((), s') → Rel N p s s') ∧
-    (∀ err, x s = .error err → ∃ s', Rel N p s s' ∧ ErrOK s' err)
+  SpAt (Rel N p) (Inv N p) s x (fun _ => True)
 
-omit hN hp hs in
+omit hN hp hs hB in
 theorem SpI.of_bind {s : St α} {x : M α β} {f : β → M α Unit} {mid : β → Prop}
-    (hx : SpAt (Rel N p) s x mid) (hf : ∀ a, mid a → ∀ s1, SpI N p s1 (f a)) : SpI N p s (x >>= f) := by
-  intro hok
-  constructor
-  · intro s' he
-    obtain ⟨a, s1, h1, h2⟩ := bind_ok he
-    obtain ⟨hr, hm⟩ := hx.1 a s1 h1
-    exact (rel_isPre N p).trans hr ((hf a hm s1 (hr.ok hok)).1 s' h2)
-  · intro err he
-    rcases bind_error he with h | ⟨a, s1, h1, h2⟩
-    · exact hx.2 err h
-    · obtain ⟨hr, hm⟩ := hx.1 a s1 h1
-      obtain ⟨s', hr2, he2⟩ := (hf a hm s1 (hr.ok hok)).2 err h2
-      exact ⟨s', (rel_isPre N p).trans hr hr2, he2⟩
+    (hx : SpAt (Rel N p) (Inv N p) s x mid) (hf : ∀ a, mid a → ∀ s1, SpI N p s1 (f a)) : SpI N p s (x >>= f) :=
+  SpAt.bind (rel_isPre N p) hx hf
 
-omit hN hp hs in
-theorem SpI.intro {s : St α} {x : M α Unit} (h : StOK N p s → SpI N p s x) : SpI N p s x :=
-  fun hok => h hok hok
+omit hN hp hs hB in
+theorem SpI.intro {s : St α} {x : M α Unit} (h : Inv N p s → SpI N p s x) : SpI N p s x := SpAt.assume h
 
-omit hN hp hs in
-theorem SpI.pure {s : St α} : SpI N p s (pure ()) := by
-  intro _
-  refine ⟨?_, fun err he => by cases he⟩
-  intro s' he
-  have : (Except.ok ((), s) : Except LinErr (Unit × St α)) = .ok ((), s') := he
-  injection this with h
-  injection h with _ h
-  subst h
-  exact (rel_isPre N p).refl _
+omit hN hp hs hB in
+theorem SpI.pure {s : St α} : SpI N p s (pure ()) := SpAt.pure (rel_isPre N p) trivial
 
-omit hN hp hs in
-theorem SpI.fail {s : St α} {e : LinErr} (h : ErrOK s e) : SpI N p s (Lin.fail e) := by
-  intro _
-  refine ⟨fun s' he => (by cases he), ?_⟩
-  intro err he
-  have : (Except.error e : Except LinErr (Unit × St α)) = .error err := he
-  injection this with h1
-  subst h1
-  exact ⟨s, (rel_isPre N p).refl _, h⟩
+omit hN hp hs hB in
+theorem SpI.fail {s : St α} {e : LinErr} (h : ErrOK s e) : SpI N p s (Lin.fail e) := SpAt.fail (rel_isPre N p) h
 
-omit hN hp hs in
+omit hN hp hs hB in
 theorem SpI.get_bind {s : St α} {f : St α → M α Unit} (h : SpI N p s (f s)) : SpI N p s (get >>= f) :=
-  fun hok => ⟨fun s' he => (h hok).1 s' he, fun err he => (h hok).2 err he⟩
+  SpAt.get_bind (fun _ => h)
 
-omit hN hp hs in
-theorem SpI.set_bind {s s2 : St α} {f : PUnit → M α Unit} (hr : Rel N p s s2) (h : SpI N p s2 (f PUnit.unit)) :
-    SpI N p s (set s2 >>= f) := by
-  intro hok
-  constructor
-  · intro s' he
-    exact (rel_isPre N p).trans hr ((h (hr.ok hok)).1 s' he)
-  · intro err he
-    obtain ⟨s', hr2, he2⟩ := (h (hr.ok hok)).2 err he
-    exact ⟨s', (rel_isPre N p).trans hr hr2, he2⟩
+omit hN hp hs hB in
+theorem SpI.set_bind {s s2 : St α} {f : PUnit → M α Unit} (hr : Rel N p s s2) (hI : Inv N p s → Inv N p s2)
+    (h : SpI N p s2 (f PUnit.unit)) : SpI N p s (set s2 >>= f) :=
+  SpAt.set_bind (rel_isPre N p) hr hI h
 
 theorem drain_spec : ∀ (n : Nat) (s : St α), SpI N p s (drain n)
   | 0, s => SpI.fail trivial
@@ -316,26 +285,27 @@ theorem drain_spec : ∀ (n : Nat) (s : St α), SpI N p s (drain n)
     split
     · exact SpI.pure
     · rename_i c rest hq
-      have hc : QOK N p c := hok.1 c (by rw [hq]; simp)
-      refine SpI.set_bind (Rel.of_domain_eq rfl rfl
-        (fun h => ⟨fun c' hc' => h.1 c' (by rw [hq]; simp [hc']), h.2⟩)) ?_
+      have hc : QOK N p c := hok.1.1 c (by rw [hq]; simp)
+      have hpop : StOK N p s → StOK N p { s with queue := rest } :=
+        fun h => ⟨fun c' hc' => h.1 c' (by rw [hq]; simp [hc']), h.2⟩
+      refine SpI.set_bind (Rel.of_domain_eq rfl rfl hpop) (fun hI => ⟨hpop hI.1, hI.2⟩) ?_
       refine SpI.of_bind (simplifyFlat_sp hs hc.2.1 _) ?_
       intro lhs hlhs s3
       refine SpI.of_bind (simplifyFlat_sp hs hc.2.2 s3) ?_
       intro rhs hrhs s4
       dsimp only
       split
-      · exact SpI.of_bind ((lowerAssertion_block hN hp hs).1 _ _ _ hlhs hc.1 s4) (fun _ _ s5 => ih s5)
+      · exact SpI.of_bind ((lowerAssertion_block hN hp hs hB).1 _ _ _ hlhs hc.1 s4) (fun _ _ s5 => ih s5)
       · apply SpI.get_bind
         split
         · exact ih s4
-        · exact SpI.of_bind (emitConstraint_sp hN hp hs (by simp [allLits]; exact hp.ofInt 0)
+        · exact SpI.of_bind (emitConstraint_sp hN hp hs hB (by simp [allLits]; exact hp.ofInt 0)
             (by simp [allLits]; exact hp.ofInt 1) hc.1 _ s4) (fun _ _ s5 => ih s5)
         · rename_i e t hnorm
           have he : allLits p e = true := by
             rcases tryNormalize_assertion hnorm with rfl | rfl <;> assumption
-          exact SpI.of_bind ((lowerAssertion_block hN hp hs).1 _ _ _ he hc.1 s4) (fun _ _ s5 => ih s5)
-        · exact SpI.of_bind (emitConstraint_sp hN hp hs hlhs hrhs hc.1 _ s4) (fun _ _ s5 => ih s5)
+          exact SpI.of_bind ((lowerAssertion_block hN hp hs hB).1 _ _ _ he hc.1 s4) (fun _ _ s5 => ih s5)
+        · exact SpI.of_bind (emitConstraint_sp hN hp hs hB hlhs hrhs hc.1 _ s4) (fun _ _ s5 => ih s5)
 
 /-! ### the whole of `linearizeWith` -/
 
@@ -358,9 +328,9 @@ def assemble (m : Model α) (obj : Ctx α) (s : St α) : LinModel α :=
 /-- a successful run of `linearizeWith` ends in a state related to the initial one by `Rel`, and the
 output is assembled from that state. -/
 theorem linearizeWith_run {m : Model α} {bounds : BoundsMap α} {domain : List (DomVar α)} {lm : LinModel α}
-    (hobj : allLits p m.objective = true) (hok : StOK N p (initSt m bounds domain))
+    (hobj : allLits p m.objective = true) (hok : Inv N p (initSt m bounds domain))
     (h : linearizeWith m bounds domain = .ok lm) :
-    ∃ (obj : Ctx α) (s : St α), Rel N p (initSt m bounds domain) s ∧ StOK N p s ∧ CtxOK p obj ∧
+    ∃ (obj : Ctx α) (s : St α), Rel N p (initSt m bounds domain) s ∧ Inv N p s ∧ CtxOK p obj ∧
       lm = assemble m obj s := by
   unfold linearizeWith at h
   dsimp only at h
@@ -372,20 +342,19 @@ theorem linearizeWith_run {m : Model α} {bounds : BoundsMap α} {domain : List 
     obtain ⟨objExp, s1, h1, hrun⟩ := bind_ok hrun
     obtain ⟨obj, s2, h2, hrun⟩ := bind_ok hrun
     obtain ⟨u, s3, h3, hrun⟩ := bind_ok hrun
-    obtain ⟨hr1, hobjExp⟩ := (simplifyFlat_sp (N := N) hs hobj _).1 _ _ h1
-    obtain ⟨hr2, hobjc⟩ := ((linExp_block hN hp).1 _ _ hobjExp _).1 _ _ h2
-    have hok2 : StOK N p s2 := hr2.ok (hr1.ok hok)
-    have hr3 := (drain_spec hN hp hs _ s2 hok2).1 s3 h3
+    obtain ⟨hr1, hI1, hobjExp⟩ := (simplifyFlat_sp (N := N) hs hobj _ hok).1 _ _ h1
+    obtain ⟨hr2, hok2, hobjc⟩ := ((linExp_block hN hp hB).1 _ _ hobjExp _ hI1).1 _ _ h2
+    obtain ⟨hr3, hI3, _⟩ := (drain_spec hN hp hs hB _ s2 hok2).1 _ s3 h3
     have hfin : (Except.ok (assemble m obj s3, s3) : Except LinErr (LinModel α × St α)) = .ok (lm', sfin) := hrun
     injection hfin with hfin
     injection hfin with hlm _
-    exact ⟨obj, s3, (rel_isPre N p).trans hr1 ((rel_isPre N p).trans hr2 hr3), hr3.ok hok2, hobjc, hlm.symm⟩
+    exact ⟨obj, s3, (rel_isPre N p).trans hr1 ((rel_isPre N p).trans hr2 hr3), hI3, hobjc, hlm.symm⟩
   · cases h
 
 /-- a failing run of `linearizeWith`: the error was raised in a state related to the initial one by `Rel`
 and satisfies `ErrOK` there. -/
 theorem linearizeWith_error {m : Model α} {bounds : BoundsMap α} {domain : List (DomVar α)} {err : LinErr}
-    (hobj : allLits p m.objective = true) (hok : StOK N p (initSt m bounds domain))
+    (hobj : allLits p m.objective = true) (hok : Inv N p (initSt m bounds domain))
     (h : linearizeWith m bounds domain = .error err) :
     ∃ s' : St α, Rel N p (initSt m bounds domain) s' ∧ ErrOK s' err := by
   unfold linearizeWith at h
@@ -397,17 +366,16 @@ theorem linearizeWith_error {m : Model α} {bounds : BoundsMap α} {domain : Lis
     subst h
     change (_ : M α (LinModel α)) (initSt m bounds domain) = _ at hrun
     have hT : ∀ {a b c : St α}, Rel N p a b → Rel N p b c → Rel N p a c := (rel_isPre N p).trans
-    have sp1 := simplifyFlat_sp (N := N) hs hobj (initSt m bounds domain)
+    have sp1 := simplifyFlat_sp (N := N) hs hobj (initSt m bounds domain) hok
     rcases bind_error hrun with h1 | ⟨objExp, s1, h1, hrun⟩
     · exact sp1.2 _ h1
-    · obtain ⟨hr1, hobjExp⟩ := sp1.1 _ _ h1
-      have sp2 := fun req => (linExp_block hN hp).1 objExp req hobjExp s1
+    · obtain ⟨hr1, hI1, hobjExp⟩ := sp1.1 _ _ h1
+      have sp2 := fun req => (linExp_block hN hp hB).1 objExp req hobjExp s1 hI1
       rcases bind_error hrun with h2 | ⟨obj, s2, h2, hrun⟩
       · obtain ⟨s', hr, he⟩ := (sp2 _).2 _ h2
         exact ⟨s', hT hr1 hr, he⟩
-      · obtain ⟨hr2, _⟩ := (sp2 _).1 _ _ h2
-        have hok2 : StOK N p s2 := hr2.ok (hr1.ok hok)
-        have sp3 := drain_spec hN hp hs drainFuel s2 hok2
+      · obtain ⟨hr2, hok2, _⟩ := (sp2 _).1 _ _ h2
+        have sp3 := drain_spec hN hp hs hB drainFuel s2 hok2
         rcases bind_error hrun with h3 | ⟨u, s3, h3, hrun⟩
         · obtain ⟨s', hr, he⟩ := sp3.2 _ h3
           exact ⟨s', hT hr1 (hT hr2 hr), he⟩
